@@ -77,6 +77,12 @@ def render(rng, abstract, active_known):
         k = a[0]
         if k == 'T':
             lines.append('t%s;' % a[1:])
+            # a null directive (6.10.7) is complete at its new-line: the next line is ordinary text even when it starts with a directive
+            # name (in a skipped group it must not open, switch or close a conditional; in an active group it is passed through)
+            if rng.random() < 0.15:
+                nm = rng.choice(['if', 'else', 'endif', 'elif', 'ifdef', 'ifndef', 'define', 'undef', 'include', 'error'])
+                lines.append(rng.choice(['#', '# ', '#  // c', '# /* c */']))
+                lines.append('%s (nd%s) { }' % (nm, a[1:]) if nm in ('if', 'else') else '%s nd%s 1' % (nm, a[1:]))
             if not act and rng.random() < 0.5:
                 lines.append(rng.choice(['#include "does_not_exist.h"', '#error must not fire', '#define DEF0 1', '#undef DEF1', '#define FN(x) 99', '#line 7',
                                          '#pragma once', 'junk @ tokens $ here', '#unknown_directive']))
